@@ -50,3 +50,27 @@ package core
 //@        (exists k int :: 0 <= k && k < len(arg(1)) && arg(1)[k] == "example.com")
 //@     && (exists k int :: 0 <= k && k < len(arg(1)) && arg(1)[k] == "example.net")
 //@     && (exists k int :: 0 <= k && k < len(arg(1)) && arg(1)[k] == "example.org")
+
+// ---- C20: secrets are refused on the command line ----
+// The verdict of the per-flag visitor: a changed flag whose name ends in token / password sets the
+// error, and an error set for an earlier flag is never cleared by a later one. (That VisitAll calls the
+// visitor for every flag is pflag's; loadFromFlagSet then refuses to load when the error is set.)
+//@ func strings.HasSuffix
+//@   trusted
+//@   pure
+//@ func loadFromFlagSet$1
+//@   prop C20
+//@   ensures [secret-on-the-command-line-is-an-error] flag.Changed && (strings.HasSuffix(flag.Name, "token") || strings.HasSuffix(flag.Name, "password")) ==> !isNilIface(err)
+//@   ensures [an-earlier-verdict-is-kept] !isNilIface(old(err)) ==> !isNilIface(err)
+//@ func (*pflag.FlagSet).VisitAll
+//@   trusted
+//@   summary once
+//@ func (*v2.Koanf).Load
+//@   trusted
+//@   benign
+//@ func posflag.Provider
+//@   trusted
+//@   benign
+//@ func loadFromFlagSet
+//@   prop C20
+//@   call (*v2.Koanf).Load #1 requires [flags-loaded-only-without-a-secret-on-the-command-line] isNilIface(err) && did(call (*pflag.FlagSet).VisitAll #1) && arg(call (*pflag.FlagSet).VisitAll #1, 0) == flags
